@@ -643,7 +643,10 @@ fn gen_table(rng: &mut Rng, name: &str, existing: &[Tbl]) -> Tbl {
     }
     if rng.chance(1, 4) {
         if let Some(c) = t.cols.iter().find(|c| c.ty.is_int() && !c.has(|s| matches!(s, CS::Generated(..)))) {
-            t.checks.push((c.name.clone(), rng.range(-3, 0)));
+            // (now and then the compound form: two OR groups joined by AND, see ddl::Tbl::statement)
+            // (not on a column that also has an upper bound of its own: the probes' valid value lies above every `>` bound)
+            let bounded = c.has(|s| matches!(s, CS::CheckLt(_)));
+            t.checks.push((c.name.clone(), if !bounded && rng.chance(1, 4) { 100 + rng.range(0, 5) } else { rng.range(-3, 0) }));
         }
     }
     t
@@ -927,7 +930,54 @@ fn run_history_inner(ctx: &Ctx, rep: &mut Report, n: u64, rng: &mut Rng, single:
     }
 }
 
+/// Directed: free-form text after the table definition (`Table::create().extra(..)`) is how SQLite's table
+/// options are declared; the catalogue says whether they took effect.
+fn table_options(ctx: &Ctx, rep: &mut Report) {
+    let n0 = 1u64 << 52;
+    let cases: [(&str, &str, &str); 3] = [
+        ("WITHOUT ROWID", "wr", "CREATE TABLE with WITHOUT ROWID"),
+        ("STRICT", "strict", "CREATE TABLE with STRICT"),
+        ("STRICT, WITHOUT ROWID", "wr", "CREATE TABLE with STRICT, WITHOUT ROWID"),
+    ];
+    for (k, (extra, flag, label)) in cases.iter().enumerate() {
+        let n = n0 + k as u64;
+        if (ctx.replay.is_none() && ctx.shard != 0) || !ctx.wants(n) {
+            continue;
+        }
+        crate::apply::set_route_seed(ctx.seed ^ n);
+        rep.eval();
+        let chk = Chk { ctx, n };
+        let db = Db::memory();
+        let sql = match guard(|| {
+            let mut t = Table::create();
+            t.table(Alias::new("opt_t"))
+                .col(ColumnDef::new(Alias::new("id")).integer().not_null().primary_key())
+                .col(ColumnDef::new(Alias::new("v")).text())
+                .extra(*extra);
+            crate::ddl::render_table(TableStatement::Create(t), Dialect::Sqlite)
+        }) {
+            Ok(s) => s,
+            Err(p) => {
+                chk.viol(rep, "R.panic", format!("{label}: {}", panic_sig(&p)), json!({"panic": p}));
+                continue;
+            }
+        };
+        if let Err(e) = db.exec(&sql) {
+            chk.viol(rep, "R.accept", format!("{label}: engine rejects the statement"), json!({"sql": sql, "error": e.msg}));
+            continue;
+        }
+        let got = db.rows(&format!("SELECT {flag} FROM pragma_table_list WHERE name = 'opt_t'")).ok().and_then(|r| r.first().and_then(|r| r.first().cloned()));
+        if got != Some(SqlVal::Int(1)) {
+            chk.viol(rep, "R.catalogue", format!("{label}: the option is not in effect"), json!({"sql": sql, "pragma_table_list": format!("{got:?}")}));
+        } else {
+            rep.count("table_options_in_effect", 1);
+            rep.nontrivial(hash_str(&sql));
+        }
+    }
+}
+
 pub fn check(ctx: &Ctx, rep: &mut Report) {
+    table_options(ctx, rep);
     // (1) bounded-exhaustive: every type x every ordered pair of column specs (single-column tables)
     let types = lite_types();
     let spec_pool: Vec<CS> = vec![
